@@ -630,4 +630,169 @@ theorem T_C20_probe_table : ∀ ch ∈ probeChunks, ∀ p ∈ ch, probeOk tolGen
 theorem T_C20_probe_table_nonempty : 400 ≤ (probeChunks.map List.length).sum ∧ 0 < tolGen := by
   decide +kernel
 
+/-! ### clamps on the optimiser's grid: all histories -/
+
+theorem firstNear_none_iff (tol : Rat) (pos : V3) (pts : List V3) (i : Nat) :
+    firstNear tol pos pts i = none ↔ ∀ p ∈ pts, near tol p pos = false := by
+  induction pts generalizing i with
+  | nil => simp [firstNear]
+  | cons p ps ih =>
+      unfold firstNear
+      by_cases h : near tol p pos = true
+      · rw [if_pos h]; simp [h]
+      · rw [if_neg h, ih]
+        have h' : near tol p pos = false := by simpa using h
+        simp [h']
+
+/-- a clamp whose position matches no vertex (within `tol`) is rejected — and only such a clamp gets
+    `NoJunctionError` -/
+theorem T_C20_clamp_no_vertex (tol : Rat) (pts : List V3) (st : List Nat) (pos : V3) :
+    (addClamp tol pts st pos).1 = .reject "NoJunctionError" ↔ ∀ p ∈ pts, near tol p pos = false := by
+  rw [← firstNear_none_iff tol pos pts 0]
+  unfold addClamp
+  cases h : firstNear tol pos pts 0 with
+  | none => simp
+  | some i => by_cases hc : i ∈ st <;> simp [hc]
+
+/-- a clamp is accepted iff its position matches a vertex that has no clamp yet -/
+theorem T_C20_clamp_accept_iff (tol : Rat) (pts : List V3) (st : List Nat) (pos : V3) :
+    (addClamp tol pts st pos).1 = .accept ↔ ∃ i, firstNear tol pos pts 0 = some i ∧ i ∉ st := by
+  unfold addClamp
+  cases h : firstNear tol pos pts 0 with
+  | none => simp
+  | some i => by_cases hc : i ∈ st <;> simp [hc]
+
+/-- **a second clamp on one vertex is rejected**: after an accepted clamp, every clamp whose position matches the
+    same vertex raises `ClampExistsError`, whatever the state before -/
+theorem T_C20_second_clamp (tol : Rat) (pts : List V3) (st : List Nat) (pos pos' : V3)
+    (hacc : (addClamp tol pts st pos).1 = .accept)
+    (hsame : firstNear tol pos' pts 0 = firstNear tol pos pts 0) :
+    (addClamp tol pts (addClamp tol pts st pos).2 pos').1 = .reject "ClampExistsError" := by
+  obtain ⟨i, hi, hni⟩ := (T_C20_clamp_accept_iff tol pts st pos).mp hacc
+  have hst : (addClamp tol pts st pos).2 = i :: st := by
+    unfold addClamp
+    simp [hi, hni]
+  rw [hst]
+  unfold addClamp
+  rw [hsame, hi]
+  simp
+
+example : (addClamp (1 / 10000000) [⟨0, 0, 0⟩, ⟨1, 0, 0⟩] [] ⟨1, 0, 0⟩).1 = .accept ∧
+    firstNear (1 / 10000000) ⟨1, 0, 1 / 20000000⟩ [⟨0, 0, 0⟩, ⟨1, 0, 0⟩] 0
+      = firstNear (1 / 10000000) ⟨1, 0, 0⟩ [⟨0, 0, 0⟩, ⟨1, 0, 0⟩] 0 := by decide +kernel
+
+/-- the clamped vertices after a history of calls -/
+def gridState (tol : Rat) (pts : List V3) : List GridOp → List Nat → List Nat
+  | [], st => st
+  | .clamp pos :: ops, st => gridState tol pts ops (addClamp tol pts st pos).2
+  | .link _ _ :: ops, st => gridState tol pts ops st
+
+theorem addClamp_nodup (tol : Rat) (pts : List V3) (st : List Nat) (pos : V3) (h : st.Nodup) :
+    (addClamp tol pts st pos).2.Nodup := by
+  unfold addClamp
+  cases hf : firstNear tol pos pts 0 with
+  | none => simpa
+  | some i =>
+      by_cases hc : i ∈ st
+      · simpa [hc]
+      · simp [hc, h]
+
+/-- over every history of `add_clamp` / `add_link` calls no vertex ever holds two clamps -/
+theorem T_C20_clamp_history (tol : Rat) (pts : List V3) (ops : List GridOp) (st : List Nat) (h : st.Nodup) :
+    (gridState tol pts ops st).Nodup := by
+  induction ops generalizing st with
+  | nil => simpa [gridState]
+  | cons op ops ih =>
+      cases op with
+      | clamp pos => exact ih _ (addClamp_nodup tol pts st pos h)
+      | link l f => exact ih _ h
+
+example : ([] : List Nat).Nodup := List.nodup_nil
+
+/-! ### links: leader and follower must match two different vertices -/
+
+theorem linkScan_spec (tol : Rat) (leader follower : V3) (pts : List V3) :
+    ∀ (pre ps : List V3) (li fi : Option Nat), pts = pre ++ ps →
+      let r := linkScan tol leader follower ps pre.length li fi
+      (r.1.isSome = true ↔ li.isSome = true ∨ ∃ p ∈ ps, near tol leader p = true) ∧
+      (r.2.isSome = true ↔ fi.isSome = true ∨ ∃ q ∈ ps, near tol leader q = false ∧ near tol follower q = true) ∧
+      (∀ l, r.1 = some l → li = some l ∨ ∃ p, pts[l]? = some p ∧ near tol leader p = true) ∧
+      (∀ f, r.2 = some f → fi = some f ∨ ∃ q, pts[f]? = some q ∧ near tol leader q = false) := by
+  intro pre ps
+  induction ps generalizing pre with
+  | nil =>
+      intro li fi _
+      simp only [linkScan]
+      exact ⟨by simp, by simp, fun l h => Or.inl h, fun f h => Or.inl h⟩
+  | cons p ps ih =>
+      intro li fi hpts
+      have hp : pts[pre.length]? = some p := by rw [hpts]; simp
+      have hpts' : pts = (pre ++ [p]) ++ ps := by rw [hpts]; simp
+      have hlen : (pre ++ [p]).length = pre.length + 1 := by simp
+      unfold linkScan
+      by_cases h1 : near tol leader p = true
+      · rw [if_pos h1]
+        have := ih (pre ++ [p]) (some pre.length) fi hpts'
+        rw [hlen] at this
+        obtain ⟨a, b, c, d⟩ := this
+        refine ⟨?_, ?_, ?_, ?_⟩
+        · rw [a]; simp [h1]
+        · rw [b]; simp [h1]
+        · intro l hl
+          rcases c l hl with h | h
+          · right; cases h; exact ⟨p, hp, h1⟩
+          · right; exact h
+        · exact d
+      · rw [if_neg h1]
+        have h1' : near tol leader p = false := by simpa using h1
+        by_cases h2 : near tol follower p = true
+        · rw [if_pos h2]
+          have := ih (pre ++ [p]) li (some pre.length) hpts'
+          rw [hlen] at this
+          obtain ⟨a, b, c, d⟩ := this
+          refine ⟨?_, ?_, c, ?_⟩
+          · rw [a]; simp [h1']
+          · rw [b]; simp [h1', h2]
+          · intro f hf
+            rcases d f hf with h | h
+            · right; cases h; exact ⟨p, hp, h1'⟩
+            · right; exact h
+        · rw [if_neg h2]
+          have h2' : near tol follower p = false := by simpa using h2
+          have := ih (pre ++ [p]) li fi hpts'
+          rw [hlen] at this
+          obtain ⟨a, b, c, d⟩ := this
+          refine ⟨?_, ?_, c, d⟩
+          · rw [a]; simp [h1']
+          · rw [b]; simp [h1', h2']
+
+/-- **a link is accepted iff its leader matches a vertex and its follower matches another vertex** (one that the
+    leader does not match); in particular a link whose two ends match the same vertex, or no vertex, is rejected -/
+theorem T_C20_link (tol : Rat) (pts : List V3) (leader follower : V3) :
+    addLink tol pts leader follower = .accept ↔
+      (∃ p ∈ pts, near tol leader p = true) ∧
+      (∃ q ∈ pts, near tol leader q = false ∧ near tol follower q = true) := by
+  have spec := linkScan_spec tol leader follower pts [] pts none none (by simp)
+  simp only [List.length_nil, Option.isSome_none, Bool.false_eq_true, false_or, reduceCtorEq] at spec
+  obtain ⟨a, b, c, d⟩ := spec
+  unfold addLink
+  rw [← a, ← b]
+  generalize hr : linkScan tol leader follower pts 0 none none = r at a b c d ⊢
+  obtain ⟨r1, r2⟩ := r
+  cases r1 with
+  | none => simp
+  | some l =>
+      cases r2 with
+      | none => simp
+      | some f =>
+          have hne : l ≠ f := by
+            intro hlf
+            obtain ⟨p, hp, hnp⟩ := c l rfl
+            obtain ⟨q, hq, hnq⟩ := d f rfl
+            rw [hlf, hq] at hp
+            cases hp
+            rw [hnp] at hnq
+            exact Bool.noConfusion hnq
+          simp [hne]
+
 end CBV.C20
